@@ -1156,6 +1156,95 @@ fn file_end_case(fmt: Fmt, ch: u16, ctx: &mut Ctx) {
 	}
 }
 
+/// a truncated file streamed while the audio thread runs inside the decoder's iterations: whenever the handle shows Stopped
+/// because the decoder failed, the error value is already there to be popped - a bad file never looks like a sound that ended
+fn error_visible_case(fmt: Fmt, ch: u16, ctx: &mut Ctx) {
+	use kira::sound::Sound;
+	pacer::set_mode(pacer::Mode::Pacer);
+	let (rate, ibs) = (8000u32, 2usize);
+	let info = MockInfoBuilder::new().build();
+	let dt = 1.0 / rate as f64;
+	let spec = Spec { fmt, ch, n: 12, rate, layout: Layout::Plain };
+	let (file, payload_at, _) = encode(&spec);
+	let block = ch as usize * (fmt.bits() as usize / 8);
+	// the header promises 12 frames, 7 and a half are there
+	let cut = payload_at + 7 * block + block / 2;
+	let bytes: Arc<[u8]> = file[..cut].to_vec().into();
+	// does this file end in an error at all (or is the valid prefix simply played)?
+	let base = stream_play(&bytes, rate, 0, &[Seg { seek_by: None, seek: None, steps: 40, render: 16 }, Seg { seek_by: None, seek: None, steps: 8, render: 4 }]);
+	if base.open_err.is_some() || base.start_err.is_some() {
+		ctx.count("error-visible: file refused when opened", 1);
+		return;
+	}
+	if base.errors.is_empty() {
+		ctx.count("error-visible: the truncated file plays its prefix without an error", 1);
+		return;
+	}
+	for pre in 0..=10u64 {
+		let mut nth = 0u64;
+		loop {
+			nth += 1;
+			ctx.evals += 1;
+			ctx.count("runs: error-visibility schedules", 1);
+			let Ok(data) = StreamingSoundData::from_cursor(Cursor::new(bytes.clone())) else { return };
+			let dec = pacer::count();
+			let Ok((mut sound, mut handle)) = data.into_sound() else { return };
+			let mut hung = false;
+			let mut error_seen = false;
+			let mut bad: Option<String> = None;
+			let mut states = vec![];
+			let mut cb = |sound: &mut Box<dyn Sound>, handle: &mut kira::sound::streaming::StreamingSoundHandle<FromFileError>, error_seen: &mut bool, bad: &mut Option<String>, states: &mut Vec<PlaybackState>, when: &str| {
+				let mut out = vec![Frame::new(POISON, POISON); ibs];
+				sound.on_start_processing();
+				sound.process(&mut out, dt, &info);
+				let st = handle.state();
+				states.push(st);
+				while handle.pop_error().is_some() {
+					*error_seen = true;
+				}
+				if st == PlaybackState::Stopped && !*error_seen && bad.is_none() {
+					*bad = Some(format!("the handle shows Stopped {} and pop_error() returns None", when));
+				}
+			};
+			paced_step(dec, pre as usize, &mut hung);
+			cb(&mut sound, &mut handle, &mut error_seen, &mut bad, &mut states, "before the decoder was parked");
+			pacer::arm_decoder_park(dec, nth);
+			paced_step(dec, 3, &mut hung);
+			for _ in 0..2 {
+				cb(&mut sound, &mut handle, &mut error_seen, &mut bad, &mut states, "while the decoder stands inside an iteration");
+			}
+			let (site, _) = pacer::release_decoder_park(dec);
+			let fired = site.is_some();
+			for _ in 0..4 {
+				paced_step(dec, 8, &mut hung);
+				cb(&mut sound, &mut handle, &mut error_seen, &mut bad, &mut states, "after the decoder went on");
+			}
+			if bad.is_none() && !hung && !error_seen {
+				bad = Some("the error never reaches the handle".to_string());
+			}
+			if let Some(b) = bad {
+				ctx.fail(
+					"stream: a file that ends in a decode error looks like a sound that simply ended (Stopped with no error value to show for it) :: callbacks inside the decoder's iterations",
+					format!("{} cut after 7.5 frames, streamed in callbacks of {} frames; the decoder runs {} iterations, then is parked at its pass #{} through a stream.* sync point ({}) while 2 callbacks run: {}; states {:?}", spec.desc(), ibs, pre, nth, site.unwrap_or("-"), b, states),
+				);
+			}
+			if fired {
+				ctx.nontrivial_extra += 1;
+				ctx.outcome(hash64(&("errvis", pre, nth, site)));
+			}
+			handle.stop(Tween { duration: std::time::Duration::ZERO, ..Default::default() });
+			for _ in 0..2 {
+				sound.on_start_processing();
+				sound.process(&mut [Frame::ZERO; 1], dt, &info);
+			}
+			paced_step(dec, 3, &mut hung);
+			if !fired || nth > 40 || hung {
+				break;
+			}
+		}
+	}
+}
+
 /// slicing already sliced data with an open-ended region: whatever the static sound makes of it, the stream makes the same
 fn reslice_case(fmt: Fmt, ch: u16, ctx: &mut Ctx) {
 	pacer::set_mode(pacer::Mode::Pacer);
@@ -1511,7 +1600,7 @@ impl Check for C18 {
 			Case::SeekBy(f, ch) => format!("generated wav {:?} channels={} of 6000 frames at 8000 Hz: seek_by(d) for d in a lattice, issued after 100 frames were heard while the decoder is 0 / 64 / 1000 / 3000 frames ahead: after the buffered frames the stream continues at heard position + d", f, ch),
 			Case::LoopSeek(f, ch) => format!("generated wav {:?} channels={} of 3000 frames at 8000 Hz streamed with loop region 1500..2200: start x one seek over a lattice of targets (before / inside / at the end of / beyond the region), early (decoder has not reached the loop) and late", f, ch),
 			Case::Sliced(f, ch) => format!("generated wav {:?} channels={} of 4000 frames at 8000 Hz, streamed through StreamingSoundData::slice for 5 slices (start inside the first packet / on the packet border / in a later packet / 0) x 4 start positions x {{no seek, 3 seeks}} == the same frames of the loaded file", f, ch),
-			Case::FileEnd(f, ch) => format!("generated wav {:?} channels={} of 6 and 7 frames at 8000 Hz streamed in callbacks of 2 frames: the decoder delivers 3..n frames, then is parked at each of its sync points in turn (every pass, until none is left) while 1 or 3 callbacks run: the frames heard are the file's, in order, to the last", f, ch),
+			Case::FileEnd(f, ch) => format!("generated wav {:?} channels={} of 6 and 7 frames at 8000 Hz streamed in callbacks of 2 frames: the decoder delivers 3..n frames, then is parked at each of its sync points in turn (every pass, until none is left) while 1 or 3 callbacks run: the frames heard are the file's, in order, to the last; and the same file cut after 7.5 frames: whenever the handle shows Stopped the error value is already there", f, ch),
 			Case::LongStream(f, ch) => format!("generated wav {:?} channels={} of 40000 frames at 8000 Hz streamed from start to end in pieces of 1000 frames (crosses the 16384-frame decoder ring twice) == loaded", f, ch),
 		}
 	}
@@ -1543,7 +1632,10 @@ impl Check for C18 {
 			}
 			Case::LoopSeek(f, ch) => loop_seek_case(*f, *ch, ctx),
 			Case::SeekBy(f, ch) => seek_by_case(*f, *ch, ctx),
-			Case::FileEnd(f, ch) => file_end_case(*f, *ch, ctx),
+			Case::FileEnd(f, ch) => {
+				file_end_case(*f, *ch, ctx);
+				error_visible_case(*f, *ch, ctx);
+			}
 		});
 		if let Err(p) = r {
 			ctx.fail(format!("panic: {} :: outside the guarded kira calls (harness)", p), self.describe(tier, idx));
